@@ -10,7 +10,7 @@ from vlib import MachineryFailure
 STRATS = ['CONTINUE', 'RESTART_PROCESS', 'STOP_APPLICATION', 'RESTART_APPLICATION']
 
 
-def rules(strategy, peer_strategy):
+def rules(strategy, peer_strategy, hold_seq=0):
     return f'''<?xml version="1.0" encoding="UTF-8" standalone="no"?><root>
 <application name="app"><start_sequence>0</start_sequence><programs>
 <program name="p"><identifiers>*</identifiers><start_sequence>1</start_sequence>
@@ -19,32 +19,46 @@ def rules(strategy, peer_strategy):
 <running_failure_strategy>{peer_strategy}</running_failure_strategy></program>
 <program name="u"><identifiers>*</identifiers><start_sequence>0</start_sequence>
 <running_failure_strategy>CONTINUE</running_failure_strategy></program>
-</programs></application></root>'''
+</programs></application>
+<application name="dup"><programs><program name="d"><identifiers>*</identifiers></program></programs></application>
+<application name="hold"><start_sequence>{hold_seq}</start_sequence><programs><program name="h1">
+<identifiers>n1</identifiers><start_sequence>1</start_sequence></program></programs></application>
+</root>'''
 
 
-def scenario(strategy, lost, q_on, u_on, when, crash=False):
+def scenario(strategy, lost, q_on, u_on, when, crash=False, phase='operation'):
     """p runs on `lost`; q on q_on; u (not sequenced) on u_on; the instance `lost` is lost `when` rounds later."""
     import clusterlib as cl
     from recorder import Driver
     cfg = cl.Config(n=3, sync=('LIST', 'TIMEOUT'))
     progs = [{'name': x, 'groups': ['app']} for x in ('p', 'q', 'u')]
-    c = cl.make_cluster(cfg, programs=progs, rules_xml=rules(strategy, 'CONTINUE'))
+    progs += [{'name': 'd', 'groups': ['dup']}, {'name': 'h1', 'groups': ['hold'], 'startsecs': 60}]
+    # phase 'distribution': the Master is held in DISTRIBUTION by a start that never ends (hold:h1 on n1)
+    c = cl.make_cluster(cfg, programs=progs, rules_xml=rules(strategy, 'CONTINUE', 1 if phase == 'distribution' else 0))
     d = Driver(c)
-    out = {'strategy': strategy, 'lost': int(lost[1]), 'p': 'p', 'crash': crash, 'err': False}
+    out = {'strategy': strategy, 'lost': int(lost[1]), 'p': 'p', 'crash': crash, 'err': False, 'phase': phase}
     try:
         for n in c.nodes:
             d.boot(n)
         for _ in range(7):
             d.fair_round()
-        if c.fsm_state('n1') != 'OPERATION':
-            raise MachineryFailure('C06 e2e: no OPERATION')
+        if c.fsm_state('n1') != ('DISTRIBUTION' if phase == 'distribution' else 'OPERATION'):
+            raise MachineryFailure(f'C06 e2e: n1 in {c.fsm_state("n1")} (phase {phase})')
         d.rpc(lost, 'startProcess', 'app:p', False, ns='supervisor')
         if q_on:
             d.rpc(q_on, 'startProcess', 'app:q', False, ns='supervisor')
         if u_on:
             d.rpc(u_on, 'startProcess', 'app:u', False, ns='supervisor')
+        if phase == 'conciliation':
+            # a conflict left to the user (conciliation_strategy USER) on the survivors: the Master is in CONCILIATION
+            for n in c.nodes:
+                if n != lost:
+                    d.rpc(n, 'startProcess', 'dup:d', False, ns='supervisor')
         for _ in range(2 + when):
             d.fair_round()
+        want = {'operation': 'OPERATION', 'conciliation': 'CONCILIATION', 'distribution': 'DISTRIBUTION'}[phase]
+        if c.fsm_state('n1') != want:
+            raise MachineryFailure(f'C06 e2e: n1 in {c.fsm_state("n1")}, wanted {want}')
         master = c.nick(c.master('n1'))
         out['master0'] = int(master[1]) if master else 0
         mark = len(d.rec.steps)
@@ -57,15 +71,15 @@ def scenario(strategy, lost, q_on, u_on, when, crash=False):
         peers = []
         for n in alive:
             for ns, proc in c.nodes[n].processes():
-                if proc.state in (10, 20, 30) and ns != 'app:p':
+                if proc.state in (10, 20, 30) and ns != 'app:p' and ns.startswith('app:'):
                     peers.append([ns.split(':')[1], int(n[1])])
-        for _ in range(14):
+        for _ in range(14 if phase != 'distribution' else 26):
             d.fair_round(reap=True)
         master2 = c.nick(c.master(alive[0]))
         reqs = []
         for st in d.rec.steps[mark:]:
             for src, dst, typ, what, arg, iso in st['push']:
-                if typ == 'R' and what in (1, 2):
+                if typ == 'R' and what in (1, 2) and arg.startswith('app:'):
                     reqs.append(['START' if what == 1 else 'STOP', int(src[1]), int(dst[1]), arg.split(':')[1]])
             if st['err']:
                 out['err'] = True
@@ -73,7 +87,7 @@ def scenario(strategy, lost, q_on, u_on, when, crash=False):
         for n in c.nodes:
             if c.nodes[n].alive:
                 for ns, proc in c.nodes[n].processes():
-                    if proc.state in (10, 20, 30):
+                    if proc.state in (10, 20, 30) and ns.startswith('app:'):
                         final.append([ns.split(':')[1], int(n[1])])
         out.update({'master': int(master2[1]) if master2 else 0, 'peers': peers, 'sequenced': ['p', 'q'],
                     'reqs': reqs, 'final': final, 'alive': [int(n[1]) for n in alive],
@@ -94,6 +108,10 @@ def scenarios(tier):
         if strategy in ('STOP_APPLICATION', 'RESTART_APPLICATION'):
             for host in ('n3', 'n1'):
                 out.append((strategy, host, 'n2', 'n2', 0, True))
+        # the instance is lost while the Master is in CONCILIATION (conflict left to the user) / held in DISTRIBUTION
+        for phase in ('conciliation', 'distribution'):
+            for q_on, u_on in ((None, None), ('n2', 'n2')):
+                out.append((strategy, 'n3', q_on, u_on, 1, False, phase))
     return out
 
 
@@ -115,7 +133,7 @@ def run(v, tier, seed):
         raise MachineryFailure('FailureE2E did not read all records')
     for bad in vlib.tlc_prints(rm.stdout, 'V '):
         r = recs[bad['i'] - 1]
-        v.violation(f'end to end: {sorted(bad["failed"])} strategy={r["strategy"]} lost=n{r["lost"]} master=n{r["master"]} '
+        v.violation(f'end to end: {sorted(bad["failed"])} phase={r["phase"]} strategy={r["strategy"]} lost=n{r["lost"]} master=n{r["master"]} '
                     f'peers={r["peers"]} reqs={r["reqs"]} final={r["final"]}',
                     {'level': 'e2e', 'failed': sorted(bad['failed']), 'schedule': r['schedule'],
                      'strategy': r['strategy']})
